@@ -99,6 +99,11 @@ class Accept(BObl):
             db = parse_real(text, True)
             v = view(db)
         except Exception as e:
+            try:                     # rejected without the properties too: acceptance of that document is C01's clause
+                m0 = strip_properties(m)
+                parse_real(surface(m0, sp), True)
+            except Exception:
+                return None
             sig = ('rejected', type(e).__name__)
             m_min, sp_min, culprits = reduce_failure(m, sp, sig)
             s3, text3, _u, detail3 = evaluate(m_min, sp_min)
